@@ -26,6 +26,7 @@ type Cluster struct {
 	net     *memnet.Net
 	scratch string
 	opt     raft.Options
+	addrs   map[uint64]string // addresses of nodes that were moved
 	// how long a leader that cannot reach a majority stays in office (the
 	// library's own tests set it; 0 = step down at once)
 	quorumWait time.Duration
@@ -101,7 +102,24 @@ func (c *Cluster) rndf() float64 {
 	return c.rng.Float64()
 }
 
-func (c *Cluster) addrOf(nid uint64) string { return fmt.Sprintf("c%dn%d:1", c.cid, nid) }
+func (c *Cluster) addrOf(nid uint64) string {
+	c.mu.Lock()
+	defer c.mu.Unlock()
+	if a, ok := c.addrs[nid]; ok {
+		return a
+	}
+	return fmt.Sprintf("c%dn%d:1", c.cid, nid)
+}
+
+// moveTo makes later incarnations of nid listen on address.
+func (c *Cluster) moveTo(nid uint64, address string) {
+	c.mu.Lock()
+	defer c.mu.Unlock()
+	if c.addrs == nil {
+		c.addrs = map[uint64]string{}
+	}
+	c.addrs[nid] = address
+}
 
 func (c *Cluster) dirOf(nid uint64) string {
 	return filepath.Join(c.scratch, fmt.Sprintf("c%dn%d", c.cid, nid))
